@@ -474,6 +474,7 @@ class Sim:
         nm.notify = notify
         self.cs = cs
         self.mgrs = {"E0": cs.emgrs[0], "E1": cs.emgrs[1], "S": cs.smgr}
+        self.nominal_sleep = {"E0": cs.sleep[0], "E1": cs.sleep[1], "S": 0.1}
         return cs
 
     @property
@@ -493,6 +494,10 @@ class Sim:
         finally:
             w.ctx = "user"
             w.step = None
+        if self.clock is not None:
+            # production loops sleep between iterations (backoff, else the loop's nominal sleep: provider.default_sleep
+            # for the event loops, 0.1 s for the sync loop, cs.py start()); virtual time advances by exactly that
+            self.clock.advance(mgr.in_backoff if mgr.in_backoff > 0 else self.nominal_sleep[name])
         self.steps += 1
         if len(self.step_log) < 4000:
             self.step_log.append(name)
